@@ -26,9 +26,21 @@ def run_check(prop, tier):
         sd = vlib.spec_dir(sc)
         binp = vlib.build_harness(sc, "avahi")
         with open(os.path.join(sd, "Avahi_M.cfg"), "w") as f:
-            f.write("SPECIFICATION Spec\nCONSTANTS MaxDisc = %d\n MaxVer = 3\n MaxWaits = %d\n Defects = %s\n EmitMode = \"none\"\nVIEW View\n"
+            f.write("SPECIFICATION Spec\nCONSTANTS MaxDisc = %d\n MaxVer = 3\n MaxWaits = %d\n MaxBrowse = 2\n Defects = %s\n EmitMode = \"none\"\nVIEW View\n"
                     "INVARIANT P_C19_fresh\nINVARIANT P_C19_afterShutdown\nINVARIANT P_C19_shutdownFinal\nCHECK_DEADLOCK FALSE\n"
                     % (2 if q else 3, 3 if q else 5, tlaset(DEFECTS)))
+        # liveness (a Shutdown that was called returns) on the full state, smaller constants, and its negative control: the
+        # design in which the listener takes the provider's mutex after a resolve must violate it (else the formula is vacuous)
+        for name, defects in (("Avahi_L", DEFECTS), ("Avahi_LN", DEFECTS + ["resolveTakesMutex"])):
+            with open(os.path.join(sd, name + ".cfg"), "w") as f:
+                f.write("SPECIFICATION Spec\nCONSTANTS MaxDisc = 1\n MaxVer = 1\n MaxWaits = 2\n MaxBrowse = 1\n Defects = %s\n EmitMode = \"none\"\n"
+                        "PROPERTY L_C19_shutdownReturns\nCHECK_DEADLOCK FALSE\n" % tlaset(defects))
+        lv = vlib.tlc(sd, "Avahi", cfg="Avahi_L.cfg", workers=4, timeout=1800)
+        if lv["error"] or lv["violated"]:
+            raise vlib.Infra("stage M: Avahi liveness: %s\n%s" % (lv["violated"] or lv["error"], lv["tail"]))
+        ln = vlib.tlc(sd, "Avahi", cfg="Avahi_LN.cfg", workers=4, timeout=1800)
+        if not ln["violated"]:
+            raise vlib.Infra("stage M: the negative control of L_C19_shutdownReturns was not violated")
         m = vlib.tlc(sd, "Avahi", cfg="Avahi_M.cfg", workers=4, timeout=1800)
         if m["error"] and not m["violated"]:
             raise vlib.Infra("TLC error in Avahi: %s\n%s" % (m["error"], m["tail"]))
@@ -38,7 +50,7 @@ def run_check(prop, tier):
             raise vlib.Infra("stage M: Avahi with Defects=%s violates %s (not a verdict about the code)" % (DEFECTS, m["violated"]))
         print("stage M: Avahi, %d states generated, %d distinct" % (m["states"], m["distinct"]))
         with open(os.path.join(sd, "Avahi_G.cfg"), "w") as f:
-            f.write("SPECIFICATION Spec\nCONSTANTS MaxDisc = 2\n MaxVer = 3\n MaxWaits = 3\n Defects = {}\n EmitMode = \"final\"\n"
+            f.write("SPECIFICATION Spec\nCONSTANTS MaxDisc = 2\n MaxVer = 3\n MaxWaits = 3\n MaxBrowse = 2\n Defects = {}\n EmitMode = \"final\"\n"
                     "ACTION_CONSTRAINT Emit\nCHECK_DEADLOCK FALSE\n")
         g = vlib.tlc(sd, "Avahi", cfg="Avahi_G.cfg", workers=1, timeout=900, simulate="num=%d" % (600 if q else 8000), depth=14, tlc_seed=seed)
         if g["error"]:
@@ -46,7 +58,7 @@ def run_check(prop, tier):
         scripts, seen = [], set()
         for ops in vlib.tlc_lines(g["out_path"], "TEST"):
             key = json.dumps(ops)
-            if key not in seen and any(o["op"] == "DaemonDown" for o in ops):
+            if key not in seen and any(o["op"] in ("DaemonDown", "BrowseAdd") for o in ops):
                 seen.add(key)
                 scripts.append(dict(ops=ops))
         limit = 400 if q else 6000
